@@ -396,6 +396,28 @@ def generate(g):
             seen.add(key)
             uniq.append(rc)
     recs = uniq
+    style = g.get("depth_style", "")
+    if style and recs:
+        # "somatic": depth information only in SOMATIC records; "germline": the mirror image.  Applied to one sample
+        # (so that it is sometimes the filtered one) or to all of them.
+        if not any(rc["som"] for rc in recs) or all(rc["som"] for rc in recs):
+            for rc in recs:
+                rc["som"] = rng.random() < 0.35
+            recs[rng.randrange(len(recs))]["som"] = True
+            if len(recs) > 1:
+                recs[rng.choice([j for j in range(len(recs)) if not recs[j]["som"]] or [0])]["som"] = False
+        which = [rng.randrange(nsamp)] if rng.random() < 0.6 else list(range(nsamp))
+        for rc in recs:
+            if rc["som"] != (style == "somatic"):
+                rc["idp"] = -1
+                for j in which:
+                    rc["calls"][j]["dp"] = -1
+                    rc["calls"][j]["ad"] = [-1]
+            else:
+                rc["fdp"] = True
+                for j in range(nsamp):
+                    if rc["calls"][j]["dp"] < 0:
+                        rc["calls"][j]["dp"] = rng.choice([0, 3, 12, 20, 38, 40])
     if g.get("shuffle") and len(recs) <= 80:
         rng.shuffle(recs)
     vcf = {"samples": samples, "peds": peds, "recs": recs}
@@ -434,7 +456,9 @@ def generate(g):
         args["mind"] = rng.choice([0, 1, 5, 10, 20, 30])
     if op == "hets" or args["src"] == "hets":
         args["mind"] = max(args["mind"], 0)
-    args["skipsom"] = rng.random() < 0.5
+    if style and args["mind"] <= 0:
+        args["mind"] = rng.choice([1, 5, 20])
+    args["skipsom"] = rng.random() < (0.8 if style else 0.5)
     args["skiprej"] = rng.random() < 0.4
     if op == "hets" or (table_op and g.get("src") == "hets"):
         if rng.random() < 0.4:
@@ -513,6 +537,11 @@ def random_inputs(ctx: Ctx, n):
         r = rng.random()
         g = {"seed": rng.randrange(2**31), "naming": rng.randrange(3), "phased_every": rng.choice([0, 0, 2, 3]),
              "shuffle": rng.random() < 0.1}
+        d = rng.random()
+        if d < 0.05:
+            g["depth_style"] = "somatic"        # depth present only in the SOMATIC records
+        elif d < 0.08:
+            g["depth_style"] = "germline"       # ... only in the records that are not SOMATIC
         if r < 0.28:
             g.update(op="read", nrec=rng.choice(sizes))
         elif r < 0.45:
@@ -582,6 +611,18 @@ def _tabulate(ctx: Ctx, rec):
             ctx.bump("partly_missing_fields")
         if any(len(rc["ref"]) != len(rc["alt"]) for rc in v["recs"]):
             ctx.bump("indel_records")
+        for j in range(len(v["samples"])):
+            has = {som: any(rc["som"] == som and rc["fdp"] and rc["calls"][j]["dp"] >= 0 for rc in v["recs"])
+                   for som in (True, False)}
+            if has[True] and not has[False] and any(not rc["som"] for rc in v["recs"]) and a["mind"] > 0:
+                ctx.bump("depth_only_in_somatic_records" + ("_skip_somatic" if a["skipsom"] or op == "hets" else ""))
+                break
+        for j in range(len(v["samples"])):
+            if (any(rc["som"] for rc in v["recs"]) and a["mind"] > 0
+                    and not any(rc["som"] and rc["fdp"] and rc["calls"][j]["dp"] >= 0 for rc in v["recs"])
+                    and any((not rc["som"]) and rc["fdp"] and rc["calls"][j]["dp"] >= 0 for rc in v["recs"])):
+                ctx.bump("depth_only_in_non_somatic_records")
+                break
         if len(v["recs"]) == 0:
             ctx.bump("empty_vcf")
         if len(v["recs"]) >= 500:
@@ -610,7 +651,7 @@ def _tabulate(ctx: Ctx, rec):
             ctx.bump("purity_rescaled")
 
 
-SCOPES_QUICK = [("record", "{0}"), ("alleles", "{0}"), ("flags", "{0}"), ("hets1", "{0}"), ("pair", "{0}"),
+SCOPES_QUICK = [("record", "{0}"), ("alleles", "{0}"), ("flags", "{0}"), ("somdepth", "{0}"), ("hets1", "{0}"), ("pair", "{0}"),
                 ("baf", "{0}"), ("boost", "{0}"), ("select", "{0}")]
 SCOPES_THOROUGH = SCOPES_QUICK[:-1] + [("select", "{0, 15}")]
 SCOPE_TEXT = {
@@ -621,6 +662,9 @@ SCOPE_TEXT = {
     "alleles": "SNV, insertion, deletion, MNV, <DEL> with and without END, at pos 1 and 4, with a second record on the "
                "same locus",
     "flags": "two records: SOMATIC x 4 FILTER values each x skip_somatic x skip_reject x min_depth",
+    "somdepth": "two records, each SOMATIC or not, the filtered sample (the sample / the paired normal) with full depth, "
+                "low depth, '.' for DP and AD, or FORMAT = GT only (depth information only in a SOMATIC record, only in a "
+                "germline record, nowhere) x skip_somatic x min_depth, through read and load_het_snps, unpaired and paired",
     "pair": "tumour + normal (by PEDIGREE or normal_id): 6 tumour calls x 8 normal calls, read and load_het_snps x "
             "zygosity_freq in {none, 1/4, 1/2, 0} x tumor_boost x min depth",
     "hets1": "one sample, two records of 5 calls each x SOMATIC x zygosity_freq x min depth through load_het_snps",
